@@ -228,7 +228,7 @@ def _hdrs_exotic(headers):
     return False
 
 
-def http_automaton(msgs, proto, te):
+def http_automaton(msgs, proto, te, final_state=False):
     """Per message: 'valid' | 'invalid' (statement's raise classes) | 'unjudged'."""
     state = "REQUEST"
     trailers_flag = False
@@ -290,6 +290,8 @@ def http_automaton(msgs, proto, te):
         if verdict == "unjudged" and t not in ("http.response.early_hint",):
             state = "UNKNOWN" if state != "CLOSED" else state
         out.append(verdict)
+    if final_state:
+        return state
     return out
 
 
@@ -476,6 +478,15 @@ def check(case, obs, tally):
                                 "detail": "stream %d: response header block with pseudo-headers %r (sequence %r, payload %s)" % (sid, pseudo, t["seq"], t["sub"])})
         for p in rx.pushes:
             heads.extend(p.get("headers") or [])
+        if t["kind"] == "http" and http_automaton(t["msgs"], proto, t.get("te"), final_state=True) == "CLOSED" and obs.closed_at is None:
+            # the valid messages of the sequence add up to a complete response (whatever invalid ones were refused in between):
+            # that response must be complete on the wire
+            tally.clause("completed-is-complete")
+            s1 = rx.streams.get(1)
+            if s1 is None or s1.status is None or s1.ended != 1:
+                out.append({"clause": "wire-prefix", "sig": "C12.wire/h2/completed-response-incomplete",
+                            "detail": "sequence %r (%s): its valid messages complete the response, but the client has %r" % (
+                                t["seq"], t["sub"], None if s1 is None else (s1.status, len(s1.data), s1.ended, s1.rst))})
         if obs.closed_at is None and not rx.errors() and rx.goaway is None:
             tally.clause("connection-intact")
             pr = rx.streams.get(3)
